@@ -466,6 +466,26 @@ func cmdCheck(args []string) int {
 		"bounded_standins":         boundedEv,
 		"vacuity":                  map[string]int{"exit_covers_sat": coverSat, "exit_covers_undecided": coverUndecided, "vacuous": vacuous},
 	}
+	if len(boundedEv) > 0 {
+		// part of the deciding argument is a bounded run: the property is claimed at the exploration level
+		ev.Level = "exploration"
+		evals, dist := 0, 0
+		for _, b := range boundedEv {
+			m := b.(map[string]interface{})
+			evals += m["cases"].(int)
+			dist += m["distinct_nontrivial"].(int)
+			if ss, ok := m["samples"].([]string); ok {
+				for _, x := range ss {
+					samples = append(samples, map[string]interface{}{"bounded_case": x})
+				}
+			}
+		}
+		ev.Coverage["evaluations"] = evals
+		ev.Coverage["distinct_nontrivial"] = dist
+		ev.Coverage["samples"] = samples
+		ev.Coverage["rule"] = "level is exploration because part of the argument is a BOUNDED exhaustive run of the real code (bounded_standins: cases enumerated as stated in each bound; distinct_nontrivial as counted by the harness); the contract obligations (obligations/discharged) are proved for all inputs and are reported alongside"
+		ev.Coverage["exhaustive"] = true
+	}
 	if !*noEvidence {
 		os.MkdirAll(filepath.Join(verifDir, "evidence"), 0o755)
 		b, _ := json.MarshalIndent(ev, "", " ")
